@@ -125,11 +125,11 @@ func (s *Protocol) Invoke(ctx context.Context, req []byte) (rsp []byte) {
 				}
 				// execute business server
 				err = s.dispatcher.Dispatch(ctx, s.serverImp, &reqPackage, &rspPackage, s.withContext)
-				// execute post server filters
+				// execute post server filters; their result must not replace the outcome of the call
 				for i, v := range s.app.allFilters.postSfs {
-					err = v(ctx, s.dispatcher.Dispatch, s.serverImp, &reqPackage, &rspPackage, s.withContext)
-					if err != nil {
-						TLOG.Errorf("Post filter error, No.%v, err: %v", i, err)
+					filterErr := v(ctx, s.dispatcher.Dispatch, s.serverImp, &reqPackage, &rspPackage, s.withContext)
+					if filterErr != nil {
+						TLOG.Errorf("Post filter error, No.%v, err: %v", i, filterErr)
 					}
 				}
 			}
